@@ -139,7 +139,8 @@ def probe(t, ns, S):
             if name in ("list", "List", "Sequence"):
                 return [S, "x"], [S, "x"], [S, "x"], [S, "x"]
             if name in ("dict", "Dict", "Mapping"):
-                return {"k": S}, {"k": S}, {"k": S}, {"k": S}
+                # an unparameterised mapping has no key type either: keys of any hashable class pass through, like the values
+                return {"k": S, 1: "i", (2, 3): None}, {"k": S, 1: "i", (2, 3): None}, {"k": S, 1: "i", (2, 3): None}, {"k": S, 1: "i", (2, 3): None}
             if name in ("tuple", "Tuple"):
                 return (S, "x"), (S, "x"), (S, "x"), [S, "x"]
             if name in ("set", "Set"):
